@@ -181,7 +181,7 @@ func init() {
 			b := strBytes(args[0])
 			n := 0
 			for _, c := range b {
-				if truth(equalsV(nil, c, args[1])) {
+				if truth(byteEq(c, args[1])) {
 					n++
 				}
 			}
@@ -329,11 +329,20 @@ func ghostObj() *syncObj {
 func extIndexByteString(fr *frame, args []value) value {
 	b := strBytes(args[0])
 	for i, c := range b {
-		if truth(equalsV(nil, c, args[1])) {
+		if truth(byteEq(c, args[1])) {
 			return i
 		}
 	}
 	return -1
+}
+
+// byteEq compares a string element with a byte; an opaque literal never equals a single byte
+// that is a separator or white space (contract of litseg).
+func byteEq(c, b value) value {
+	if _, ok := c.(litseg); ok {
+		return false
+	}
+	return equalsV(nil, c, b)
 }
 
 // strings.Builder is struct{addr *Builder; buf []byte}; we keep the bytes in field 1.
